@@ -292,6 +292,21 @@ func (c *dlConn) note(t time.Time) {
 func (c *dlConn) SetDeadline(t time.Time) error     { c.note(t); return c.Conn.SetDeadline(t) }
 func (c *dlConn) SetReadDeadline(t time.Time) error { c.note(t); return c.Conn.SetReadDeadline(t) }
 
+// waitsUnbounded decides whether the node sits in a read that nothing bounds: the remote is silent, the node has
+// not closed the connection and no read deadline is armed on its end. Between the end of the handshake (which
+// clears its deadline) and the first frame read of Peer.Run the deadline is legitimately unarmed for an instant, so
+// the state has to persist over a generous period before it counts.
+func waitsUnbounded(sv *srvSide, nodeClosed *int32) bool {
+	deadline := time.Now().Add(5 * time.Second)
+	for time.Now().Before(deadline) {
+		if atomic.LoadInt32(&sv.conn.readArmed) != 0 || atomic.LoadInt32(nodeClosed) != 0 {
+			return false
+		}
+		time.Sleep(2 * time.Millisecond)
+	}
+	return true
+}
+
 // srvSide is the node's end of one connection, driven like p2p.Server drives it.
 type srvSide struct {
 	peer     p2p.IPeer
@@ -442,8 +457,12 @@ func (x *wireExec) exchange(cs *Case, wit interface{}) {
 			outcome = "closed-by-node"
 		} else {
 			outcome = "node-waits"
-			if atomic.LoadInt32(&sv.conn.readArmed) == 0 {
+			if waitsUnbounded(sv, &nodeClosed) {
 				x.s.Stat(surface+"_node_waits_without_read_deadline", 1)
+				x.s.Violation("C15/node-unresponsive:"+surface+":waits-for-remote-without-read-deadline",
+					"the remote went silent and the node waits for it in a read with no deadline armed: the goroutine (for a dialled connection: the only dialling goroutine) is held for as long as the remote likes", wit)
+			} else {
+				x.s.Stat(surface+"_node_waits_under_a_read_deadline", 1)
 			}
 		}
 	} else {
